@@ -857,7 +857,12 @@ fn gen_synth(t: &mut Tape, arch: usize) -> (String, FnSpec) {
     for blk in g.spec.blocks.iter_mut() {
         let k = t.weighted(&[15, 40, 30, 15]);
         for _ in 0..k {
-            let op = gen_sp_op(t, &sp, &others, &cond);
+            let mut op = gen_sp_op(t, &sp, &others, &cond);
+            // sometimes the stack operation is only a placeholder (a nop standing in for it): it
+            // does nothing when executed, so the offset must not move either
+            if t.chance(1, 8) && matches!(op, il::Operation::Assign { .. }) {
+                op = il::Operation::Nop { placeholder: Some(Box::new(op)) };
+            }
             let pos = t.below(blk.len() + 1);
             blk.insert(pos, OpSpec { op, address: Some(addr) });
             addr += 4;
